@@ -11,7 +11,8 @@ META = {
         "has_data() said so (no fabricated empty events); R4 handle_task_message: Link inserts the link before Linked, Unlink sends one unlinked "
         "only for an existing link, UnknownLane answers lane-not-found; R5 the read task reports unknown lanes for non-command envelopes; "
         "R6 on stop every open link is unlinked and pending writes are drained, a failed lane unlinks all its remotes; R7 one writer token per "
-        "remote; R8 events are only ever sent to linked remotes."),
+        "remote; R8 events are only ever sent to linked remotes. R12 (shared queue discipline) whatever is recorded for a link while the remote's writer is busy is scheduled."
+),
     "does_not_decide": "the full per-pair frame language over all interleavings of read and write tasks; byte equality of bodies beyond 'the body operand is the lane's buffer'",
 }
 
